@@ -1,5 +1,5 @@
 From Coq Require Import Reals ZArith List String Bool.
-From OV Require Import Ops RInst XR Gen.Paraxial Model.Paraxial Spec.S_ABCD Lemmas.L_Paraxial.
+From OV Require Import Ops RInst XR Gen.Paraxial Model.Paraxial Spec.S_ABCD Lemmas.L_Paraxial Lemmas.L_Paraxial2.
 Local Open Scope R_scope.
 Import ListNotations.
 
@@ -89,3 +89,97 @@ Theorem C04_focal_from_matrix :
 Proof. exact focal_from_matrix. Qed.
 Print Assumptions C04_focal_from_matrix.
 
+
+Theorem C04_tg_forward_matrix :
+  forall (pss : list (psurf XOps)) (ass : list asurf) (k : nat) (y u z : R),
+       Forall2 wf_surf pss ass ->
+       tg (O:=XOps) pss (Fin y) (Fin u) (Fin z) false k =
+       map finyu (map (fun m : mat => mapply m (y, u)) (sysmats (skipn k ass) z mid)).
+Proof. exact tg_forward_matrix. Qed.
+Print Assumptions C04_tg_forward_matrix.
+
+Theorem C04_XPL_from_matrix :
+  forall (pss : list (psurf XOps)) (ass : list asurf) (si : nat) (zs : R),
+       Forall2 wf_surf pss ass ->
+       stop_index pss = Some si ->
+       Nat.eqb si (List.length pss - 2) = false ->
+       skipn (S si) ass <> nil ->
+       pos (O:=XOps) pss si = Fin zs ->
+       let m := sysmat (skipn (S si) ass) zs in
+       md m <> 0%R -> XPL pss = Fin (- mb m / md m).
+Proof. exact XPL_from_matrix. Qed.
+Print Assumptions C04_XPL_from_matrix.
+
+Theorem C04_marginal_ray_matrix_infinite :
+  forall (pobj : psurf XOps) (psrest : list (psurf XOps)) (ass : list asurf) (e z1 : R),
+       Forall2 wf_surf (pobj :: psrest) ass ->
+       p_z pobj = NInf ->
+       pos (O:=XOps) (pobj :: psrest) 1 = Fin z1 ->
+       marginal_ray (pobj :: psrest) EPDt (Fin e) =
+       map finyu (map (fun m : mat => mapply m ((e / 2)%R, 0%R)) (sysmats ass (z1 - 10) mid)).
+Proof. exact marginal_ray_matrix_infinite. Qed.
+Print Assumptions C04_marginal_ray_matrix_infinite.
+
+Theorem C04_marginal_ray_matrix_finite :
+  forall (pobj : psurf XOps) (psrest : list (psurf XOps)) (ass : list asurf) (e zo epl : R),
+       Forall2 wf_surf (pobj :: psrest) ass ->
+       p_z pobj = Fin zo ->
+       EPL (pobj :: psrest) = Fin epl ->
+       (epl - zo)%R <> 0%R ->
+       marginal_ray (pobj :: psrest) EPDt (Fin e) =
+       map finyu (map (fun m : mat => mapply m (0%R, (e / (2 * (epl - zo)))%R)) (sysmats ass zo mid)).
+Proof. exact marginal_ray_matrix_finite. Qed.
+Print Assumptions C04_marginal_ray_matrix_finite.
+
+Theorem C04_magnification_matrix :
+  forall (pobj : psurf XOps) (psrest : list (psurf XOps)) (aobj : asurf) (asrest : list asurf)
+         (e zo epl n0 nl : R),
+       Forall2 wf_surf (pobj :: psrest) (aobj :: asrest) ->
+       a_obj aobj = true ->
+       asrest <> nil ->
+       p_z pobj = Fin zo ->
+       p_npost pobj = Fin n0 ->
+       p_npost (last psrest pobj) = Fin nl ->
+       EPL (pobj :: psrest) = Fin epl ->
+       (epl - zo)%R <> 0%R -> e <> 0%R -> nl <> 0%R ->
+       let m := sysmat (aobj :: asrest) zo in
+       md m <> 0%R ->
+       magnification (pobj :: psrest) EPDt (Fin e) = Fin (n0 / (nl * md m)).
+Proof. exact magnification_matrix. Qed.
+Print Assumptions C04_magnification_matrix.
+
+Theorem C04_magnification_is_A :
+  forall A B C D n0 nl : R,
+       B = 0%R -> (A * D - B * C)%R = (n0 / nl)%R -> nl <> 0%R -> D <> 0%R -> n0 <> 0%R ->
+       (n0 / (nl * D))%R = A.
+Proof. exact magnification_is_A. Qed.
+Print Assumptions C04_magnification_is_A.
+
+Theorem C04_wf_inverted :
+  forall (pss : list (psurf XOps)) (ass : list asurf) (zl : R),
+       Forall2 wf_surf pss ass ->
+       Forall (fun s : asurf => a_obj s = false -> a_n1 s <> 0%R) ass ->
+       match rev pss with s :: _ => p_z s | nil => Fin 0 end = Fin zl ->
+       Forall2 wf_surf (inverted pss) (arev zl ass).
+Proof. exact wf_inverted. Qed.
+Print Assumptions C04_wf_inverted.
+
+Theorem C04_tg_reverse_matrix :
+  forall (pss : list (psurf XOps)) (ass : list asurf) (zl : R) (k : nat) (y u z : R),
+       Forall2 wf_surf (inverted pss) (arev zl ass) ->
+       tg (O:=XOps) pss (Fin y) (Fin u) (Fin z) true k =
+       map finyu (map (fun m : mat => mapply m (y, u)) (sysmats (skipn k (arev zl ass)) z mid)).
+Proof. exact tg_reverse_matrix. Qed.
+Print Assumptions C04_tg_reverse_matrix.
+
+Theorem C04_EPL_from_matrix :
+  forall (pss : list (psurf XOps)) (ass : list asurf) (zl : R) (k si : nat) (zs : R),
+       Forall2 wf_surf (inverted pss) (arev zl ass) ->
+       stop_index pss = Some (S k) ->
+       stop_index (inverted pss) = Some si ->
+       skipn (S si) (arev zl ass) <> nil ->
+       pos (O:=XOps) (inverted pss) si = Fin zs ->
+       let m := sysmat (skipn (S si) (arev zl ass)) zs in
+       md m <> 0%R -> EPL pss = Fin (mb m / md m).
+Proof. exact EPL_from_matrix. Qed.
+Print Assumptions C04_EPL_from_matrix.
